@@ -38,6 +38,10 @@ THEOREMS = [
     "C08_defs_distinct_or_err",
     "C08_defs_err_on_collision",
     "C08_defs_ok_without_collision",
+    "C08_batch_distinct_or_err",
+    "C08_batch_err_title_vs_key",
+    "C08_batch_err_key_vs_key",
+    "C08_batch_defs_only",
     "C08_classes_satisfiable",
 ]
 ALLOWED_AXIOMS = ()
@@ -295,6 +299,72 @@ def defs_case(names, replace=None):
     return {"settings": st, "steps": [{"op": "refs", "defs": defs}], "code": False}
 
 
+def batch_case(spec):
+    """all definition-level name sources of one call: spec = {title|None, defs, patch{type name: rename},
+    inline{def: property with an inline object schema}}"""
+    d = {}
+    for n in spec["defs"]:
+        props = {"a": {"type": "string"}}
+        if n in spec.get("inline", {}):
+            props[spec["inline"][n]] = {"type": "object", "properties": {"q": {"type": "string"}}, "required": ["q"]}
+        d[n] = {"type": "object", "properties": props, "required": list(props)}
+    st = {}
+    if spec.get("patch"):
+        st["patch"] = {k: {"rename": v} for k, v in spec["patch"].items()}
+    if spec.get("title") is None:
+        steps = [{"op": "refs", "defs": d}]
+    else:
+        steps = [{"op": "root", "doc": {"title": spec["title"], "type": "object", "properties": {"p": {"type": "string"}},
+                                        "required": ["p"], "definitions": d}}]
+    return {"settings": st, "steps": steps, "code": False}
+
+
+def spec_strings(spec):
+    out = list(spec["defs"]) + ([spec["title"]] if spec.get("title") is not None else [])
+    for k, v in spec.get("patch", {}).items():
+        out += [k, v]
+    out += list(spec.get("inline", {}).values())
+    return out
+
+
+def names_chars(names):
+    return "".join(spec_strings(names)) if isinstance(names, dict) else "".join(names)
+
+
+TITLE_KEY_PAIRS = [("my type", "my-type"), ("T", "T"), ("Foo", "foo"), ("foo", "Foo"), ("foo bar", "foo_bar"), ("fooBar", "foo-bar"),
+                   ("1a", "x1a"), ("1a", "X1a"), ("", "x"), ("", "X"), ("-", ""), ("\u00e9t\u00e9", "\u00c9t\u00e9"),
+                   ("stra\u00dfe", "Strasse"), ("self", "Self"), ("Self", "self_"), ("type", "Type"), ("a'b", "ab"),
+                   ("XMLHttp", "xml_http"), ("\u4e2d\u6587", "\u4e2d-\u6587"), ("my type", "MyType"), ("3d", "x3d")]
+
+
+def source_cases(rnd, tier, small, short, rand):
+    """root title vs definition key (same string; different strings with equal sanitised form; controls),
+    root title / definition key vs derived inline type name, groups of keys with a title"""
+    out = []
+    for t, k in TITLE_KEY_PAIRS:
+        out.append({"title": t, "defs": [k]})
+        out.append({"title": t, "defs": dedupe([k, "other", "zz top"])})
+        out.append({"title": t + " other", "defs": [k]})          # control: no collision
+        out.append({"title": None, "defs": dedupe([t, k])})       # key vs key
+    base = dedupe(SPECIAL + rnd.sample(KEYWORDS, 15) + rnd.sample(small, 60 if tier == "quick" else 400)
+                  + rnd.sample(short, 30 if tier == "quick" else 200) + rnd.sample(rand, min(len(rand), 20 if tier == "quick" else 150)))
+    for t in base:
+        out.append({"title": t, "defs": [t]})
+        ps = partner_strings(t, rnd)
+        for k in rnd.sample(ps, min(len(ps), 5 if tier == "quick" else 10)):
+            out.append({"title": t, "defs": [k]})
+            if rnd.random() < 0.3:
+                out.append({"title": k, "defs": dedupe([t] + rnd.sample(base, 2))})
+        out.append({"title": t, "defs": dedupe(rnd.sample(base, rnd.randrange(1, 4)))})
+    # derived inline type names (not in the Coq model; direct oracle only)
+    for parent, prop, other in [("Foo", "bar", "foo bar"), ("Foo", "bar", "FooBar"), ("foo", "bar-baz", "foo_bar_baz"),
+                                ("my-def", "x", "MyDefX"), ("A", "b", "ab"), ("Zoo", "bar", "zoo bar")]:
+        out.append({"title": other, "defs": [parent], "inline": {parent: prop}, "derived": True})     # title vs derived
+        out.append({"title": None, "defs": dedupe([parent, other]), "inline": {parent: prop}, "derived": True})  # key vs derived
+        out.append({"title": other + " q", "defs": [parent], "inline": {parent: prop}})                   # control
+    return out
+
+
 def top_items(res):
     return [i for i in res["render"]["scan"]["items"] if i["mod"] == "" and i["kind"] in ("struct", "enum")]
 
@@ -439,6 +509,35 @@ class Pipe:
         return sorted(idents)
 
 
+def check_batch(pipe, spec, case, res):
+    """the rendered module never defines one identifier twice, or the call fails"""
+    pipe.stats["batch"] = pipe.stats.get("batch", 0) + 1
+    st = res.get("steps", [{}])[0]
+    items = pipe.common("batch", spec, case, res)
+    if items is None:
+        if st.get("r") in ("err", "panic"):
+            pipe.stats["batch_rejected"] = pipe.stats.get("batch_rejected", 0) + 1
+            return st.get("r")
+        return None
+    idents = [i["name"] for i in items]
+    pipe.stats["items_checked"] += len(idents)
+    want = len(spec["defs"]) + (1 if spec.get("title") is not None else 0) + len(spec.get("inline", {}))
+    dups = sorted({i for i in idents if idents.count(i) > 1})
+    if dups:
+        pipe.stats["dup_items"] += 1
+        # the inline sub-type is the item whose only field is `q`
+        derived = {i["name"] for i in items if i["kind"] == "struct" and i["fields"].get("k") == "named"
+                   and [f["name"] for f in i["fields"]["fields"]] == ["q"]}
+        if spec.get("inline") and all(d in derived and idents.count(d) == 2 for d in dups):
+            pipe.finding("C08-F5", {"spec": spec, "duplicate_item": dups})
+        else:
+            pipe.bad("duplicate item names in the module", case, res, items=dups, idents=idents)
+    elif len(idents) != want and not spec.get("inline"):
+        pipe.bad("number of items differs from the number of name sources", case, res, idents=idents, expected=want)
+    pipe.nfc(idents, spec_strings(spec), "items")
+    return sorted(idents)
+
+
 def fmt_pairs(pairs):
     return ",".join("%s/%s" % (show(cps(i)), "-" if r is None else "+" + show(cps(r))) for i, r in pairs)
 
@@ -494,10 +593,12 @@ def run(ctx):
         for fn in sorted(os.listdir(cdir)):
             if fn.endswith(".json"):
                 corpus.append(json.load(open(os.path.join(cdir, fn))))
-    corpus_strings = [s for c in corpus for s in c.get("names", [])]
+    corpus_strings = [s for c in corpus for s in (spec_strings(c) if c["kind"] == "batch" else c.get("names", []))]
+    srccases = source_cases(random.Random(ctx.seed * 977 + 3), ctx.tier, small, short, rand)
+    src_strings = dedupe([n for sp in srccases for n in spec_strings(sp)] + ["Renamed9"])
     poscases = position_cases(random.Random(ctx.seed * 131 + 7), ctx.tier)
     corpus_strings = dedupe(corpus_strings + [n for _, names, _ in poscases for n in names])
-    g_small = dedupe(corpus_strings + kws + ["".join(chr(x) for x in k) for k, _ in kwv] + small + short)
+    g_small = dedupe(corpus_strings + src_strings + kws + ["".join(chr(x) for x in k) for k, _ in kwv] + small + short)
     g_rand = dedupe(rand)
     rnd = random.Random(ctx.seed * 31 + 5)
 
@@ -517,6 +618,12 @@ def run(ctx):
         allchars |= set(s)
     rows_l = vlib.run_bin("c08", [{"op": "classes", "chars": sorted(ord(c) for c in allchars)}])[0]["rows"]
     rows = {r[0]: r for r in rows_l}
+    for _ in range(6):   # close the table under case mapping (identifiers are used as patch names)
+        missing = sorted({x for r in rows.values() for x in r[2] + r[3] if x not in rows})
+        if not missing:
+            break
+        for r in vlib.run_bin("c08", [{"op": "classes", "chars": missing}])[0]["rows"]:
+            rows[r[0]] = r
     ctx.coverage["class_table_rows"] = len(rows)
 
     # ---- implementation on all strings, both cases
@@ -622,6 +729,8 @@ def run(ctx):
             pcases.append(("enum", c["names"], enum_case(c["names"])))
         elif k == "defs":
             pcases.append(("defs", c["names"], defs_case(c["names"])))
+        elif k == "batch":
+            pcases.append(("batch", c, batch_case(c)))
     for s in singles:
         pcases.append(("props", [s], props_case([s])))
         pcases.append(("enum", [s], enum_case([s])))
@@ -634,6 +743,20 @@ def run(ctx):
     for s in EXTRA_FORMS + rnd.sample(singles, 60):
         pcases.append(("propsx", [s], props_case([s], {"type": "integer"})))
         pcases.append(("propsx", dedupe([s, "b"]), props_case(dedupe([s, "b"]), {"type": "string"})))
+    # all definition-level name sources of one call: root title, definition keys, patch renames, derived names
+    for sp in srccases:
+        pcases.append(("batch", sp, batch_case(sp)))
+    pj = [(a, b) for a, b in pairs if a in san and b in san]
+    for a, b in rnd.sample(pj, min(len(pj), 150 if ctx.tier == "quick" else 1200)):
+        if san[a][1] == san[b][1]:
+            continue
+        # key vs patch-renamed name (a is renamed to b's type name), control, and the same with a as the root title
+        pcases.append(("batch", {"title": None, "defs": [a, b], "patch": {san[a][1]: san[b][1]}}, None))
+        pcases.append(("batch", {"title": None, "defs": [a, b], "patch": {san[a][1]: "Renamed9"}}, None))
+        pcases.append(("batch", {"title": a, "defs": [b], "patch": {san[a][1]: san[b][1]}}, None))
+        pcases.append(("batch", {"title": a, "defs": [b], "patch": {san[b][1]: san[a][1]}}, None))
+    pcases = [(k, n, (batch_case(n) if c is None else c)) for k, n, c in pcases]
+    ctx.coverage["name_source_cases"] = len([1 for k, _, _ in pcases if k == "batch"])
     # colliding names at every relative position (sorted by identifier; `extra` pushed after the sort)
     for kind, names, ap in poscases:
         if kind == "propsx":
@@ -686,6 +809,18 @@ def run(ctx):
                     {"mod": "", "kind": "struct", "name": "T", "fields": {"k": "named", "fields": [
                         {"name": "foo_bar", "serde": [["rename", "foo-bar"]], "ty": "String", "vis": "pub"},
                         {"name": "foo_bar", "serde": [], "ty": "String", "vis": "pub"}]}}]}}})
+            if mutate == "keys-only-check" and kind == "batch" and names.get("title") is not None \
+                    and not names.get("inline") and all(n in san for n in spec_strings(names)):
+                # emulates the batch_names check moved before conversion and computed from the definition KEYS
+                # (sanitize -> Pascal, patch renames applied): the root, named from its title, drops out
+                pt = names.get("patch", {})
+                ids = [pt.get(san[d][1], san[d][1]) for d in names["defs"]]
+                tid = pt.get(san[names["title"]][1], san[names["title"]][1])
+                if len(set(ids)) == len(ids) and tid in ids:
+                    res.clear()
+                    res.update({"steps": [{"r": "ok", "id": 0}], "render": {"r": "ok", "scan": {"items": [
+                        {"mod": "", "kind": "struct", "name": i, "fields": {"k": "named", "fields": [
+                            {"name": "a", "serde": [], "ty": "String", "vis": "pub"}]}} for i in ids + [tid]]}}})
             if mutate == "no-def-unique-check" and kind == "defs" and names == ["foo", "Foo"]:
                 # emulates lib.rs batch_names check (fix c22ef06) removed: two items `Foo` are emitted
                 res.clear()
@@ -711,10 +846,12 @@ def run(ctx):
                 o = o + [("extra", "flatten")] if pipe.last_flat == ["extra"] else o + [("?", "flatten-missing")]
         elif kind == "enum":
             o = pipe.check_enum(names, case, res)
+        elif kind == "batch":
+            o = check_batch(pipe, names, case, res)
         else:
             o = pipe.check_defs(names, case, res)
         observed.append(o)
-        ctx.nontrivial.add(kind + ":" + json.dumps(names))
+        ctx.nontrivial.add(kind + ":" + json.dumps(names, sort_keys=True))
     for c, o in zip(corpus, observed[:len(corpus)]):
         if c.get("expect") == "rejected" and o != "err":
             pipe.viol.append({"kind": "regression of a fixed finding: colliding names are no longer rejected at add time",
@@ -729,6 +866,13 @@ def run(ctx):
     try:
         def expr(it):
             kind, names, _ = it
+            if kind == "batch":
+                if names.get("inline"):
+                    return '"n/a"%string'
+                return "run_batch cls [%s] [%s] %s" % (
+                    ";".join("(%s,%s)" % (ustr(k), ustr(v)) for k, v in sorted(names.get("patch", {}).items())),
+                    ";".join(ustr(n) for n in names["defs"]),
+                    "None" if names.get("title") is None else "(Some %s)" % ustr(names["title"]))
             l = "[" + ";".join(ustr(n) for n in names) + "]"
             if kind in ("props", "propsx"):
                 # BTreeMap order of the property names, then stable sort by identifier: compare as multisets
@@ -736,7 +880,7 @@ def run(ctx):
             if kind == "enum":
                 return "run_variants cls %s" % l
             return "run_defs cls %s" % l
-        pshards = shard_by_table(rows, pcases, lambda it: "".join(it[1]), expr, 200)
+        pshards = shard_by_table(rows, pcases, lambda it: names_chars(it[1]), expr, 200)
         pmres = eval_shards("c08p", pshards)
         for (kind, names, case), o, m, res in zip(pcases, observed, pmres, pres):
             if kind in ("props", "propsx"):
@@ -751,6 +895,18 @@ def run(ctx):
                 if isinstance(o, str) and o == "err" and m == "err" and "multiple properties map to the same field name" \
                         not in res.get("steps", [{}])[0].get("msg", ""):
                     e = "err(other reason): " + str(res.get("steps"))
+            elif kind == "batch":
+                if names.get("inline"):
+                    continue
+                if o is None:
+                    e = "rejected"
+                elif isinstance(o, str):
+                    e = o
+                    if o == "err" and m == "err" and "map to the same type name" not in res.get("steps", [{}])[0].get("msg", ""):
+                        e = "err(other reason): " + str(res.get("steps"))
+                else:
+                    e = ",".join(sorted(show(cps(i)) for i in o))
+                mm = ",".join(sorted(m.split(","))) if m else ""
             elif kind == "enum":
                 if o is None:
                     e = "rejected"
@@ -770,7 +926,8 @@ def run(ctx):
                     e = ",".join(sorted(show(cps(i)) for i in o))
                 mm = ",".join(sorted(m.split(","))) if m else ""
             if e != mm:
-                pm.append({"kind": kind, "names": [cps(n) for n in names], "impl": e, "model": mm})
+                pm.append({"kind": kind, "names": (names if isinstance(names, dict) else [cps(n) for n in names]),
+                           "impl": e, "model": mm})
     except Exception as e:  # noqa
         pm_ok = False
         ctx.oblige("model evaluates on pipeline cases", False, str(e))
